@@ -1,5 +1,278 @@
 package main
 
-import "golang.org/x/tools/go/packages"
+import (
+	"bytes"
+	"fmt"
+	"go/token"
+	"go/types"
+	"sort"
+	"strings"
 
-func genAccess(pkgs []*packages.Package) {}
+	"golang.org/x/tools/go/callgraph"
+	"golang.org/x/tools/go/callgraph/cha"
+	"golang.org/x/tools/go/callgraph/vta"
+	"golang.org/x/tools/go/packages"
+	"golang.org/x/tools/go/ssa"
+	"golang.org/x/tools/go/ssa/ssautil"
+)
+
+var trackedStructs = map[string]bool{"peer": true, "fsm": true, "Server": true, "updateMessageWriter": true}
+
+type access struct {
+	field string // Struct.field
+	fn    string
+	kind  string // "r" read, "w" write, "cw" constructor write (object allocated in the same function), "a" address taken
+}
+
+func structField(t types.Type, idx int) (string, bool) {
+	if p, ok := t.Underlying().(*types.Pointer); ok {
+		t = p.Elem()
+	}
+	n, ok := t.(*types.Named)
+	if !ok {
+		return "", false
+	}
+	st, ok := n.Underlying().(*types.Struct)
+	if !ok || !trackedStructs[n.Obj().Name()] {
+		return "", false
+	}
+	return n.Obj().Name() + "." + st.Field(idx).Name(), true
+}
+
+func isAllocInFn(v ssa.Value) bool {
+	switch x := v.(type) {
+	case *ssa.Alloc:
+		return true
+	case *ssa.Phi:
+		for _, e := range x.Edges {
+			if !isAllocInFn(e) {
+				return false
+			}
+		}
+		return true
+	}
+	return false
+}
+
+func fnName(f *ssa.Function) string {
+	n := f.RelString(f.Pkg.Pkg)
+	n = strings.ReplaceAll(n, "(*", "")
+	n = strings.ReplaceAll(n, ")", "")
+	return n
+}
+
+// classify follows the uses of an address (FieldAddr / IndexAddr chain) to loads and stores.
+func classify(addr ssa.Value, ctor bool, field, fn string, out *[]access, depth int) {
+	refs := addr.Referrers()
+	if refs == nil || depth > 4 {
+		return
+	}
+	for _, r := range *refs {
+		switch u := r.(type) {
+		case *ssa.Store:
+			if u.Addr == addr {
+				k := "w"
+				if ctor {
+					k = "cw"
+				}
+				*out = append(*out, access{field, fn, k})
+			} else {
+				*out = append(*out, access{field, fn, "a"})
+			}
+		case *ssa.UnOp:
+			if u.Op == token.MUL {
+				*out = append(*out, access{field, fn, "r"})
+				// a map held in the field that is updated / deleted from: a write to the field's data
+				if lr := u.Referrers(); lr != nil {
+					for _, x := range *lr {
+						switch m := x.(type) {
+						case *ssa.MapUpdate:
+							if m.Map == u {
+								*out = append(*out, access{field, fn, "w"})
+							}
+						case *ssa.Call:
+							if b, ok := m.Call.Value.(*ssa.Builtin); ok && b.Name() == "delete" && len(m.Call.Args) > 0 && m.Call.Args[0] == u {
+								*out = append(*out, access{field, fn, "w"})
+							}
+						}
+					}
+				}
+			}
+		case *ssa.IndexAddr:
+			classify(u, ctor, field, fn, out, depth+1)
+		case *ssa.FieldAddr:
+			// nested struct (sync.Once, sync.Mutex inside): an access to the outer field's storage
+			*out = append(*out, access{field, fn, "a"})
+		case *ssa.DebugRef:
+		default:
+			*out = append(*out, access{field, fn, "a"})
+		}
+	}
+}
+
+func genAccess(pkgs []*packages.Package) {
+	prog, spkgs := ssautil.AllPackages(pkgs, ssa.InstantiateGenerics)
+	prog.Build()
+	var main *ssa.Package
+	for _, p := range spkgs {
+		if p != nil && p.Pkg.Path() == pkgs[0].PkgPath {
+			main = p
+		}
+	}
+	if main == nil {
+		fatalf("ssa package not found")
+	}
+	all := ssautil.AllFunctions(prog)
+	var fns []*ssa.Function
+	for f := range all {
+		if f.Pkg == main && !strings.HasPrefix(f.Name(), "Verif") && !strings.HasPrefix(f.Name(), "verif") {
+			pos := prog.Fset.Position(f.Pos())
+			if strings.HasSuffix(pos.Filename, "_test.go") || strings.Contains(pos.Filename, "verif_") {
+				continue
+			}
+			fns = append(fns, f)
+		}
+	}
+	sort.Slice(fns, func(i, j int) bool { return fnName(fns[i]) < fnName(fns[j]) })
+
+	var accs []access
+	goTargets := map[*ssa.Function]string{} // functions started with `go`
+	for _, f := range fns {
+		for _, b := range f.Blocks {
+			for _, ins := range b.Instrs {
+				switch v := ins.(type) {
+				case *ssa.FieldAddr:
+					if name, ok := structField(v.X.Type(), v.Field); ok {
+						classify(v, isAllocInFn(v.X), name, fnName(f), &accs, 0)
+					}
+				case *ssa.Field:
+					if name, ok := structField(v.X.Type(), v.Field); ok {
+						accs = append(accs, access{name, fnName(f), "r"})
+					}
+				case *ssa.Go:
+					if callee := v.Call.StaticCallee(); callee != nil {
+						goTargets[callee] = fnName(callee)
+					} else if mc, ok := v.Call.Value.(*ssa.MakeClosure); ok {
+						if fn, ok := mc.Fn.(*ssa.Function); ok {
+							goTargets[fn] = fnName(fn)
+						}
+					}
+				}
+			}
+		}
+	}
+	// call graph: VTA seeded by CHA (CHA alone resolves a call through a func value to every closure of
+	// that type and is useless here)
+	cg := vta.CallGraph(all, cha.CallGraph(prog))
+	cg.DeleteSyntheticNodes()
+	// roots: `go` targets, exported API (functions and methods of exported types), WriteUpdate
+	roots := map[string]*ssa.Function{}
+	for f, n := range goTargets {
+		if f.Pkg == main {
+			roots[n] = f
+		}
+	}
+	for _, f := range fns {
+		if f.Parent() != nil {
+			continue
+		}
+		exported := token.IsExported(f.Name())
+		if f.Signature.Recv() != nil {
+			rt := f.Signature.Recv().Type()
+			if p, ok := rt.(*types.Pointer); ok {
+				rt = p.Elem()
+			}
+			if n, ok := rt.(*types.Named); ok {
+				exported = exported && (token.IsExported(n.Obj().Name()) || f.Name() == "WriteUpdate")
+			}
+		}
+		if exported {
+			roots["api:"+fnName(f)] = f
+		}
+	}
+	reach := map[string][]string{}
+	for rn, rf := range roots {
+		seen := map[*ssa.Function]bool{}
+		var visit func(f *ssa.Function)
+		visit = func(f *ssa.Function) {
+			if f == nil || seen[f] || f.Pkg != main {
+				return
+			}
+			seen[f] = true
+			// closures defined here but only *called* (not started with go) are reached through call edges;
+			// anonymous functions run via defer / direct call appear as call edges too
+			n := cg.Nodes[f]
+			if n == nil {
+				return
+			}
+			for _, e := range n.Out {
+				if _, isGo := e.Site.(*ssa.Go); isGo {
+					continue
+				}
+				visit(e.Callee.Func)
+			}
+		}
+		visit(rf)
+		for f := range seen {
+			reach[rn] = append(reach[rn], fnName(f))
+		}
+		sort.Strings(reach[rn])
+	}
+	_ = callgraph.GraphVisitEdges
+
+	// fold: per (field, root) the strongest kinds seen
+	byFn := map[string][]access{}
+	for _, a := range accs {
+		byFn[a.fn] = append(byFn[a.fn], a)
+	}
+	type key struct{ field, root, kind string }
+	set := map[key]bool{}
+	for rn, fs := range reach {
+		for _, fn := range fs {
+			for _, a := range byFn[fn] {
+				set[key{a.field, rn, a.kind}] = true
+			}
+		}
+	}
+	var rows []key
+	for k := range set {
+		rows = append(rows, k)
+	}
+	sort.Slice(rows, func(i, j int) bool {
+		if rows[i].field != rows[j].field {
+			return rows[i].field < rows[j].field
+		}
+		if rows[i].root != rows[j].root {
+			return rows[i].root < rows[j].root
+		}
+		return rows[i].kind < rows[j].kind
+	})
+	var buf bytes.Buffer
+	fmt.Fprintf(&buf, "/-! GENERATED by /verif/extract from /repo on every check run — do not edit.\n")
+	fmt.Fprintf(&buf, "Struct-field accesses of `peer`, `fsm`, `Server`, `updateMessageWriter` per goroutine root (SSA + VTA call graph,\n")
+	fmt.Fprintf(&buf, "not crossing `go` statements). kind: r read, w write, cw write to an object allocated in the same function\n")
+	fmt.Fprintf(&buf, "(constructor), a address taken / passed on (treated as read and write of the field's storage by the callee). -/\n")
+	fmt.Fprintf(&buf, "namespace CoreBGP.Gen\n\nstructure AccessFact where\n  field : String\n  root : String\n  kind : String\nderiving Repr, DecidableEq\n\n")
+	fmt.Fprintf(&buf, "def accesses : List AccessFact := [\n")
+	for i, r := range rows {
+		sep := ","
+		if i == len(rows)-1 {
+			sep = ""
+		}
+		fmt.Fprintf(&buf, "  ⟨%q, %q, %q⟩%s\n", r.field, r.root, r.kind, sep)
+	}
+	fmt.Fprintf(&buf, "]\n\n/-- goroutine roots: `go` targets and the exported API -/\ndef roots : List String := [")
+	rns := make([]string, 0, len(roots))
+	for rn := range roots {
+		rns = append(rns, rn)
+	}
+	sort.Strings(rns)
+	for i, rn := range rns {
+		if i > 0 {
+			buf.WriteString(", ")
+		}
+		fmt.Fprintf(&buf, "%q", rn)
+	}
+	fmt.Fprintf(&buf, "]\n\nend CoreBGP.Gen\n")
+	writeIfChanged("Access.lean", buf.Bytes())
+}
